@@ -164,6 +164,36 @@ def _run(prop, tier, replay, seed, work, t0):
                 elif p in tags:
                     verdict.add(prop, (f"[{p}] " if p != prop else "") + msg, sig, {"run": run, "line": line, "trace": tp})
 
+    # ---- hook-level binding of Loop.tla to the code (LoopTrace.tla): drift is a NOTE, never a verdict
+    binding = {"enabled": False}
+    if not replay and C.HOOKS_ON and prop in ("C01", "C04", "C05", "C08"):
+        def plain(sc):
+            cfg = sc.get("cfg", {})
+            if any(k in cfg for k in ("max_read", "max_write", "pic", "password", "greeting")):
+                return False
+            return not any(st.get("kind") == "art" for b in sc.get("batches", []) for st in b)
+        keep = {sc["run"] for sc in scheds if plain(sc)}
+        ltp = work.path("looptrace.ndjson")
+        nruns = 0
+        with open(ltp, "w") as out:
+            for tp in traces:
+                cur = False
+                with open(tp) as f:
+                    for line in f:
+                        if line.startswith('{"auth"') or '"e":"reset"' in line:
+                            rid = json.loads(line)["run"]
+                            cur = rid in keep and nruns < (400 if quick else 6000)
+                            nruns += 1 if cur else 0
+                        if cur:
+                            out.write(line)
+        tuples, _, nst, _ = C.tlc_trace("LoopTrace", "LoopTrace.cfg", ltp, work, timeout=1500, xmx="4g")
+        notes = [t for t in tuples if t[0] == "NOTE"]
+        binding = {"enabled": True, "runs": nruns, "records": nst - 1, "drift_notes": len(notes), "samples": [str(t)[:300] for t in notes[:3]],
+                   "meaning": "every hook event of the code took the Loop.tla action it names and the model predicted the observed world at every quiescent point" if not notes
+                   else "the code no longer follows Loop.tla on these runs: the exhaustive model result is not transferable to this tree (property verdicts are unaffected)"}
+        for t in notes[:5]:
+            print("NOTE model-drift run=%s record=%s %s" % (t[2], t[3], str(t[4])[:200]))
+
     extra = {}
     if prop == "C18" and not replay:
         # protocol-level connects (both flavours) on greeting strings x segmentations, judged by WireTrace.tla
@@ -235,6 +265,7 @@ def _run(prop, tier, replay, seed, work, t0):
         "trace_events_validated": nevents,
         "known_finding_hits": {k: len(v) for k, v in verdict.known_hits.items()},
         "protocol_level_connect_cases": len(extra),
+        "hook_level_binding": binding,
         "model_scope": MODEL_SCOPE.get(prop, MODEL_SCOPE["loop"]),
     }
     assumptions = [
